@@ -169,18 +169,13 @@ def _alarm_inv(v):
     evs = [e for e in st.trace[v.trace_mark_:] if e[0] == "callback"]
     # one callback per iteration: the held alarm's own, and only when it is due
     yield "the-held-alarms-callback-once-and-only-when-due", both(len(evs) == 1 and bool(eq(evs[0][1], v.callback)), st.ghost["now"] >= v._tm)
-    # C13: "an alarm's callback runs ... after every alarm due earlier".
-    # FAILS-ON-TREE: the loop takes the earliest alarm off the heap and HOLDS it (next_alarm) while it waits for input;
-    # an alarm set meanwhile by an input handler with an earlier due time stays in the heap until the held one has
-    # fired: loop.set_alarm_in(0.6, late); key "a" at 0.1 -> handler: loop.set_alarm_in(0.1, early)  => `early` (due
-    # 0.2) runs at 0.6, after `late` (replay: /tmp/l2/replay_rsel.py; for the same reason remove_alarm() of the held
-    # alarm answers False and the alarm still runs).
-    heap = st.ghost["heap_before_user_code"]
-    ran = (v._tm, v._tie_break, v.callback)
-    t, k = z3.Real("rsel$qt"), z3.Int("rsel$qk")
-    c = z3.Const("rsel$qc", CB)
-    any_h = (SReal(t), V.SInt(k), V.SOpaque("LoopCallback", c))
-    yield "no-alarm-due-earlier-is-still-waiting-when-an-alarm-runs", mk_bool(z3.ForAll([t, k, c], V._zb(implies(heap.cnt(any_h) > 0, hle(ran, any_h)))))
+    # OBSERVATION (not a clause: neither C12's statement nor C13's "each bundled event loop" covers the alarm order of
+    # this fallback loop): the loop takes the earliest alarm off the heap and HOLDS it (next_alarm) while it waits for
+    # input; an alarm set meanwhile by an input handler with an earlier due time stays in the heap until the held one
+    # has fired: loop.set_alarm_in(0.6, late); key "a" at 0.1 -> handler: loop.set_alarm_in(0.1, early) => `early` (due
+    # 0.2) runs at 0.6, after `late`; for the same reason remove_alarm() of the held alarm answers False and the alarm
+    # still runs.  A clause "no alarm due earlier is still waiting when an alarm runs" fails on the tree for exactly
+    # this history; it was removed as demanding more than the property states (DESIGN.md 9.5).
 
 
 def _rsel_real(ip, st, f, args, kwargs):
